@@ -120,6 +120,15 @@ def buffered_writer_flush_rule(ctx, fn_paths, fns, pid, floor):
                         "its Drop flushes and throws the error away: if that last write fails the function still returns Ok and the incomplete temporary is committed over the destination")
 
 
+_VIEW_CALL = _re.compile(r"(CStr::from_ptr|CStr::to_str|CStr::to_string_lossy|CStr::to_bytes|path::Path::new|::as_ref|::as_path|::as_str|::as_os_str|::to_str|::to_string_lossy|::to_owned|::to_string|::to_path_buf|::clone|::deref|::borrow|::into|::from|::unwrap\\w*|::expect|::map_err|::ok_or\\w*|Try>::branch|::from_residual|String::from_utf8\\w*|str::from_utf8\\w*)$")
+
+
+def _only_views(roots):
+    """the value is the parameter seen through conversions only (C string -> &str -> &Path ...), not a path built from it
+    (join / with_extension / format!), which would name a different file"""
+    return all(k != "call" or _VIEW_CALL.search(w or "") for k, w, _d in roots)
+
+
 def _after_success(fn, cfg, t):
     """blocks reachable once the commit call has *succeeded*: from the Ok / Continue arm of the first branch on its result
     (`?`, `match`, `if let Err(..)`); the blocks of the failure arm are not "after the commit" — the destination is still the old one
@@ -166,6 +175,7 @@ def run(ctx):
     R_tmp = ctx.rule("C12.temp-in-dest-dir", "the temporary is created in the destination's own directory (same filesystem) and is the commit's source", floor=2)
     R_leak = ctx.rule("C12.temp-delete-on-drop", "no keep/forget/into_parts on the temporary in writers or anything they reach", floor=2)
     R_reach = ctx.rule("C12.reachable-no-fs-mutation", "functions reachable from the writers perform no path-based fs mutation of their own", floor=50)
+    R_post = ctx.rule("C12.no-failure-after-commit", "no `Err` return of an archive writer is reachable once its commit (rename / persist) has succeeded", floor=2)
     R_caller = ctx.rule("C12.callers-do-not-touch-dest", "callers of the writers never create/truncate/remove the destination themselves", floor=5)
 
     # (C12e/C03e family) a short write accepted as complete leaves a truncated but well-formed file behind a reported success
@@ -244,6 +254,20 @@ def run(ctx):
                 ctx.ok(R_direct, {"writer": wpath, "call": c, "line": t["ln"], "dest": direct, "after_commit": bb in after})
         if not others:
             ctx.ok(R_direct, {"writer": wpath, "note": "no fs-mutating call besides the commit"})
+        # once the commit has succeeded the destination *is* the new archive: the writer can no longer report failure (an `Err`
+        # after that point tells the caller the old archive is still there)
+        errs = [bb_ for bb_, kind_, _p in rules.ret_assignments(fn) if kind_ in ("err", "residual")]
+        late = [e_ for e_ in errs if e_ in after]
+        if late and not wpath.endswith("::build"):
+            # the error clause of the property is about build(); for compact the destination holds the complete new archive either way
+            ctx.ok(R_post, {"writer": wpath, "error_exits_after_commit": len(late), "note": "not a build: the destination is the complete new archive when such an error is returned"})
+        elif late:
+            # which fallible call feeds it
+            cul = next((t2 for b2, t2 in iter_calls(fn) if b2 in after and (ncallee(t2) or "").endswith("Try>::branch") and any(e_ in cfg.reachable(b2) for e_ in late)), None)
+            ctx.bad(R_post, "%s|error-exit-after-commit" % wpath, "%s:%d" % (fn.file, (cul or {}).get("ln") or fn.lo), "an error return (bb%d) is reachable after the commit has succeeded" % late[0],
+                    "the build reports failure although the destination has already been replaced by the new archive: 'a build that returns an error leaves the previous destination untouched' no longer holds")
+        else:
+            ctx.ok(R_post, {"writer": wpath, "error_exits_after_commit": 0})
         # success exits dominated by commit
         exits = rules.success_exit_blocks(fn)
         for bb, kind, _ in exits:
@@ -344,14 +368,14 @@ def run(ctx):
             for bb, t in iter_calls(f):
                 if callee(t) and norm(callee(t)) == wpath and len(t["a"]) > 1:
                     for k, w, d in der.roots(t["a"][1]):
-                        if k == "param" and d:
+                        if k == "param" and (d or _only_views(der.roots(t["a"][1]))):
                             dest_roots.add(w)
             nbad = 0
             for bb, t in iter_calls(f):
                 c = ncallee(t)
                 if c in FS_MUT and c not in ("std::fs::create_dir_all", "std::fs::create_dir"):
                     roots = der.roots(t["a"][FS_MUT[c]])
-                    if any(k == "param" and w in dest_roots and d for k, w, d in roots):
+                    if any(k == "param" and w in dest_roots and (d or _only_views(roots)) for k, w, d in roots):
                         nbad += 1
                         ctx.bad(R_caller, "%s|%s" % (cp, c), "%s:%d" % (f.file, t["ln"]),
                                 "%s on the path that is also handed to %s" % (c, wpath.split("::")[-1]),
